@@ -10,6 +10,7 @@ for n in $names; do echo $n; done | xargs -P $J -I{} sh -c '
   rm -rf $w $w-out; git -C /repo worktree add -q --detach $w HEAD 2>/dev/null || { echo "$n: worktree failed"; exit 0; }
   if ! git -C $w apply /verif/seeded/$n/patch.diff 2>/dev/null; then echo "$n: PATCH DOES NOT APPLY"; git -C /repo worktree remove --force $w; exit 0; fi
   out=$(NIMA_REPO=$w VERIF_BUILD_DIR=$w-out/build VERIF_REPLAY_DIR=$w-out VERIF_EVIDENCE_DIR=$w-out/evidence timeout 1800 /verif/check $p --tier quick 2>&1)
+  if [ -n "$KEEP" ]; then { echo "$out" | grep "^VIOLATION"; for r in $(echo "$out" | grep "^VIOLATION" | sed "s/.*replay=\([^ ]*\).*/\1/" | sort -u); do echo "--- $r"; head -c 1500 $r; echo; done; } > /tmp/scratch/par/$n.txt 2>&1; fi
   if echo "$out" | grep -q "^VIOLATION property=$p"; then echo "$n: caught ($(echo "$out" | grep -c "^VIOLATION") violation lines$(echo "$out" | grep -q no-failing-input-found && echo ", no-failing-input-found"))"
   else echo "$n: MISSED"; fi
   git -C /repo worktree remove --force $w; rm -rf $w-out'
